@@ -90,6 +90,16 @@ pub struct TransportConfig {
     pub event_channel_capacity: usize,
 }
 
+/// In-memory network used by verification harnesses instead of QUIC.
+#[cfg(feature = "verif-hooks")]
+#[async_trait::async_trait]
+pub trait VerifNet: Send + Sync {
+    /// Deliver a framed message from `from` to `to`.
+    async fn deliver(&self, from: &str, to: &str, frame: Vec<u8>) -> std::result::Result<(), String>;
+    /// Resolve an address to the transport id listening there and register the dialer remotely.
+    async fn connect(&self, from: &str, from_addr: &str, address: &str) -> std::result::Result<String, String>;
+}
+
 /// Encapsulates transport-level concerns: QUIC connections, peer registry,
 /// message I/O, and network events.
 ///
@@ -117,6 +127,16 @@ pub struct TransportHandle {
     periodic_tasks_handle: Arc<RwLock<Option<JoinHandle<()>>>>,
     recv_handles: Arc<RwLock<Vec<JoinHandle<()>>>>,
     listener_handle: Arc<RwLock<Option<JoinHandle<()>>>>,
+    #[cfg(feature = "verif-hooks")]
+    verif_net: Option<Arc<dyn VerifNet>>,
+    #[cfg(feature = "verif-hooks")]
+    verif_id: Option<String>,
+    #[cfg(feature = "verif-hooks")]
+    verif_addr: Option<String>,
+    #[cfg(feature = "verif-hooks")]
+    verif_inject_tx: std::sync::Mutex<
+        Option<tokio::sync::mpsc::Sender<(ant_quic::PeerId, Vec<u8>)>>,
+    >,
 }
 
 // ============================================================================
@@ -262,6 +282,14 @@ impl TransportHandle {
             periodic_tasks_handle,
             recv_handles: Arc::new(RwLock::new(Vec::new())),
             listener_handle: Arc::new(RwLock::new(None)),
+            #[cfg(feature = "verif-hooks")]
+            verif_net: None,
+            #[cfg(feature = "verif-hooks")]
+            verif_id: None,
+            #[cfg(feature = "verif-hooks")]
+            verif_addr: None,
+            #[cfg(feature = "verif-hooks")]
+            verif_inject_tx: std::sync::Mutex::new(None),
         })
     }
 
@@ -318,7 +346,77 @@ impl TransportHandle {
             periodic_tasks_handle: Arc::new(RwLock::new(None)),
             recv_handles: Arc::new(RwLock::new(Vec::new())),
             listener_handle: Arc::new(RwLock::new(None)),
+            #[cfg(feature = "verif-hooks")]
+            verif_net: None,
+            #[cfg(feature = "verif-hooks")]
+            verif_id: None,
+            #[cfg(feature = "verif-hooks")]
+            verif_addr: None,
+            #[cfg(feature = "verif-hooks")]
+            verif_inject_tx: std::sync::Mutex::new(None),
         })
+    }
+}
+
+#[cfg(feature = "verif-hooks")]
+impl TransportHandle {
+    /// Build a transport that has no QUIC endpoints and talks through `net`.
+    pub fn verif_new_in_memory(
+        peer_id: PeerId,
+        transport_id: String,
+        listen_addr: String,
+        net: Arc<dyn VerifNet>,
+        connection_timeout: Duration,
+    ) -> Self {
+        let (event_tx, _) = broadcast::channel(crate::DEFAULT_EVENT_CHANNEL_CAPACITY);
+        Self {
+            peer_id,
+            dual_node: Arc::new(DualStackNetworkNode::with_transports(None, None)),
+            peers: Arc::new(RwLock::new(HashMap::new())),
+            active_connections: Arc::new(RwLock::new(HashSet::new())),
+            event_tx,
+            listen_addrs: RwLock::new(Vec::new()),
+            rate_limiter: Arc::new(RateLimiter::new(RateLimitConfig::default())),
+            active_requests: Arc::new(RwLock::new(HashMap::new())),
+            geo_provider: Arc::new(BgpGeoProvider::new()),
+            shutdown: CancellationToken::new(),
+            resource_manager: None,
+            connection_timeout,
+            stale_peer_threshold: Duration::from_secs(3600),
+            connection_monitor_handle: Arc::new(RwLock::new(None)),
+            keepalive_handle: Arc::new(RwLock::new(None)),
+            periodic_tasks_handle: Arc::new(RwLock::new(None)),
+            recv_handles: Arc::new(RwLock::new(Vec::new())),
+            listener_handle: Arc::new(RwLock::new(None)),
+            verif_net: Some(net),
+            verif_id: Some(transport_id),
+            verif_addr: Some(listen_addr),
+            verif_inject_tx: std::sync::Mutex::new(None),
+        }
+    }
+
+    /// Hand raw bytes to the unmodified receive loop as if they arrived on the
+    /// authenticated connection of `sender_id` (hex transport id).
+    pub async fn verif_inject(&self, sender_id: &str, frame: Vec<u8>) -> bool {
+        let tx = self.verif_inject_tx.lock().ok().and_then(|g| g.clone());
+        let Some(tx) = tx else { return false };
+        let Ok(pid) = crate::transport::ant_quic_adapter::string_to_ant_peer_id(sender_id) else {
+            return false;
+        };
+        tx.send((pid, frame)).await.is_ok()
+    }
+
+    /// Register an inbound connection exactly as the accept loop does.
+    pub async fn verif_accept(&self, peer_id: &str, remote: SocketAddr) {
+        let remote_addr = NetworkAddress::from(remote);
+        broadcast_event(&self.event_tx, P2PEvent::PeerConnected(peer_id.to_string()));
+        register_new_peer(&self.peers, &peer_id.to_string(), &remote_addr).await;
+        self.active_connections.write().await.insert(peer_id.to_string());
+    }
+
+    /// Number of pending /rr/ requests.
+    pub async fn verif_active_requests_len(&self) -> usize {
+        self.active_requests.read().await.len()
     }
 }
 
@@ -337,6 +435,10 @@ impl TransportHandle {
     /// This is the ID used in `P2PEvent::Message.source`, `connected_peers()`,
     /// and `send_message()`. It differs from `peer_id()` which is the app-level ID.
     pub fn transport_peer_id(&self) -> Option<String> {
+        #[cfg(feature = "verif-hooks")]
+        if let Some(id) = &self.verif_id {
+            return Some(id.clone());
+        }
         if let Some(ref v4) = self.dual_node.v4 {
             return Some(ant_peer_id_to_string(&v4.our_peer_id()));
         }
@@ -453,6 +555,27 @@ impl TransportHandle {
 impl TransportHandle {
     /// Connect to a peer at the given address.
     pub async fn connect_peer(&self, address: &str) -> Result<PeerId> {
+        #[cfg(feature = "verif-hooks")]
+        if let (Some(net), Some(me), Some(my_addr)) =
+            (&self.verif_net, &self.verif_id, &self.verif_addr)
+        {
+            let peer_id = net.connect(me, my_addr, address).await.map_err(|e| {
+                P2PError::Network(NetworkError::InvalidAddress(format!("{address}: {e}").into()))
+            })?;
+            let peer_info = PeerInfo {
+                peer_id: peer_id.clone(),
+                addresses: vec![address.to_string()],
+                connected_at: Instant::now(),
+                last_seen: Instant::now(),
+                status: ConnectionStatus::Connected,
+                protocols: vec!["p2p-foundation/1.0".to_string()],
+                heartbeat_count: 0,
+            };
+            self.peers.write().await.insert(peer_id.clone(), peer_info);
+            self.active_connections.write().await.insert(peer_id.clone());
+            self.send_event(P2PEvent::PeerConnected(peer_id.clone()));
+            return Ok(peer_id);
+        }
         // Check production limits if resource manager is enabled
         let _connection_guard = if let Some(ref resource_manager) = self.resource_manager {
             Some(resource_manager.acquire_connection().await?)
@@ -618,6 +741,13 @@ impl TransportHandle {
             protocol,
             raw_data_len
         );
+
+        #[cfg(feature = "verif-hooks")]
+        if let (Some(net), Some(me)) = (&self.verif_net, &self.verif_id) {
+            return net.deliver(me, peer_id, message_data).await.map_err(|e| {
+                P2PError::Transport(crate::error::TransportError::StreamError(e.into()))
+            });
+        }
 
         let send_fut = self
             .dual_node
@@ -936,6 +1066,10 @@ impl TransportHandle {
         if let Some(v4) = self.dual_node.v4.as_ref() {
             handles.push(v4.spawn_recv_task(tx.clone(), self.shutdown.clone()));
         }
+        #[cfg(feature = "verif-hooks")]
+        if let Ok(mut g) = self.verif_inject_tx.lock() {
+            *g = Some(tx.clone());
+        }
         drop(tx);
 
         let event_tx = self.event_tx.clone();
@@ -1033,6 +1167,10 @@ impl TransportHandle {
         info!("Stopping transport...");
 
         self.shutdown.cancel();
+        #[cfg(feature = "verif-hooks")]
+        if let Ok(mut g) = self.verif_inject_tx.lock() {
+            *g = None;
+        }
         self.dual_node.shutdown_endpoints().await;
 
         // Await recv system tasks
